@@ -1,5 +1,5 @@
 (* C10 Recursion safety *)
-From LD Require Import Base F32 Data Model Ops Bucket Eval EvalFacts Safety WellFormed Pure Order Cycles.
+From LD Require Import Base F32 Data Model Ops Bucket Eval EvalFacts Safety WellFormed Pure Order Cycles Acyclic.
 
 (* termination for every prerequisite graph and every segment graph: with the fuel run supplies, never OutOfFuel *)
 Theorem C10_terminates : forall re_ok re_match o E P c f, exists out, run re_ok re_match o E P c f = Done out.
@@ -56,3 +56,36 @@ Theorem C10_segment_errors_are_malformed : forall re_ok re_match o E P c sg,
   post (seg_contains re_ok re_match o E P c (seg_fuel E) [] sg) clause_err_ok.
 Proof. exact post_seg_top. Qed.
 Print Assumptions C10_segment_errors_are_malformed.
+
+(* ---- shared acyclic references are not cycles ----
+   srank / frank: a rank that strictly decreases along every segment reference / prerequisite edge the store can resolve
+   (the definition of an acyclic graph; diamonds and chains of any depth have one). Under that hypothesis the evaluator is
+   pointwise equal -- result, state and trace, from every start state, with any fuel and any path prefix of larger rank --
+   to seg_nc / eval_nc, the same evaluator with the cycle check deleted: every flag or segment reached along several
+   paths is evaluated normally on each of them and nothing is ever reported as a cycle. *)
+Theorem C10_acyclic_segments_evaluate_normally : forall re_ok re_match o E P c srank,
+  acyclic_segments E srank -> forall fuel chain sg,
+  seg_refs_ok E srank sg -> (forall k, In k chain -> (srank (sg_key sg) < srank k)%nat) ->
+  forall st, seg_contains re_ok re_match o E P c fuel chain sg st = seg_nc re_ok re_match o E P c fuel sg st.
+Proof. exact seg_contains_nocheck. Qed.
+Print Assumptions C10_acyclic_segments_evaluate_normally.
+
+Theorem C10_acyclic_flags_evaluate_normally : forall re_ok re_match o E P c srank,
+  acyclic_segments E srank -> forall frank, acyclic_flags E frank -> forall fuel chain f,
+  prereqs_ok E frank f -> (forall k, In k chain -> (frank (f_key f) < frank k)%nat) ->
+  forall st, eval_flag re_ok re_match o E P c fuel chain f st = eval_nc re_ok re_match o E P c fuel f st.
+Proof. exact eval_flag_nocheck. Qed.
+Print Assumptions C10_acyclic_flags_evaluate_normally.
+
+Theorem C10_acyclic_store_top_level : forall re_ok re_match o E P c srank,
+  acyclic_segments E srank -> forall frank, acyclic_flags E frank -> forall f st, prereqs_ok E frank f ->
+  eval_flag re_ok re_match o E P c (flag_fuel E) [] f st = eval_nc re_ok re_match o E P c (flag_fuel E) f st.
+Proof. exact acyclic_store_evaluates_without_cycle_check. Qed.
+Print Assumptions C10_acyclic_store_top_level.
+
+(* the hypotheses hold for a diamond: top -> {left, right} -> shared *)
+Theorem C10_diamond_is_acyclic :
+  acyclic_flags diamond diamond_rank /\ prereqs_ok diamond diamond_rank (mkf (s "top") [s "left"; s "right"]) /\
+  acyclic_segments diamond (fun _ => 0%nat).
+Proof. exact diamond_is_acyclic. Qed.
+Print Assumptions C10_diamond_is_acyclic.
